@@ -100,6 +100,28 @@ class Armorable(metaclass=abc.ABCMeta):
         return Armorable.__armor_regex.search(text) is not None
 
     @staticmethod
+    def _non_ascii_armor(data):
+        """
+        The text of an ASCII-armored block whose surroundings (the text of a cleartext signed message) are not ASCII,
+        or None if ``data`` is binary: binary OpenPGP data starts with a packet tag, which has bit 7 set.
+        Octets are taken as UTF-8, or as latin-1 if they are not valid UTF-8.
+        """
+        if isinstance(data, (bytes, bytearray)):
+            if len(data) == 0 or data[0] & 0x80:
+                return None
+
+            try:
+                data = bytes(data).decode('utf-8')
+
+            except UnicodeDecodeError:
+                data = bytes(data).decode('latin-1')
+
+        if Armorable.__armor_regex.search(data) is None:
+            return None
+
+        return data
+
+    @staticmethod
     def ascii_unarmor(text):
         """
         Takes an ASCII-armored PGP block and returns the decoded byte value.
@@ -112,8 +134,12 @@ class Armorable(metaclass=abc.ABCMeta):
         """
         m = {'magic': None, 'headers': None, 'body': bytearray(), 'crc': None}
         if not Armorable.is_ascii(text):
-            m['body'] = bytearray(text)
-            return m
+            # armor around text that is not ASCII (a cleartext signed message) is still armor
+            armored = Armorable._non_ascii_armor(text)
+            if armored is None:
+                m['body'] = bytearray(text)
+                return m
+            text = armored
 
         if isinstance(text, (bytes, bytearray)):  # pragma: no cover
             text = text.decode('latin-1')
@@ -192,7 +218,9 @@ class Armorable(metaclass=abc.ABCMeta):
     def from_blob(cls, blob):
         obj = cls()
         if (not isinstance(blob, bytes)) and (not isinstance(blob, bytearray)):
-            po = obj.parse(bytearray(blob, 'latin-1'))
+            # str may carry binary data, one octet per character; armored text that is not ASCII is text
+            encoding = 'latin-1' if (cls.is_ascii(blob) or not cls.is_armor(blob)) else 'utf-8'
+            po = obj.parse(bytearray(blob, encoding))
 
         else:
             po = obj.parse(bytearray(blob))
